@@ -2056,14 +2056,19 @@ fn step_temp_coll(env: &Env, ctx: &mut ThreadCtx, kind: KindTag, members: &[Memb
 		}
 	}
 	let label = format!("ctor {kind:?}");
+	// 0 = not built, 1 = refused, 2 = accepted
+	let verdict = std::cell::Cell::new(0u8);
+	let verdict_ref = &verdict;
 	non_acquiring(env, tid, &label, || {
 		let v = match crate::world::build_members_pub(members, &env.world) {
 			Some(v) => v,
 			None => return,
 		};
+		verdict_ref.set(1);
 		match kind {
 			KindTag::Boxed => {
 				if let Some(c) = Boxed::try_new(v) {
+					verdict_ref.set(2);
 					match then {
 						TempThen::Drop => drop(c),
 						TempThen::IntoChild => drop(c.into_child()),
@@ -2079,6 +2084,7 @@ fn step_temp_coll(env: &Env, ctx: &mut ThreadCtx, kind: KindTag, members: &[Memb
 			}
 			KindTag::Retry => {
 				if let Some(c) = Retry::try_new(v) {
+					verdict_ref.set(2);
 					match then {
 						TempThen::Drop => drop(c),
 						TempThen::IntoChild => drop(c.into_child()),
@@ -2094,6 +2100,7 @@ fn step_temp_coll(env: &Env, ctx: &mut ThreadCtx, kind: KindTag, members: &[Memb
 			}
 			KindTag::Ref => {
 				if let Some(c) = RefC::try_new(&v) {
+					verdict_ref.set(2);
 					match then {
 						TempThen::Drop | TempThen::IntoChild => drop(c),
 						TempThen::IntoIter => c.into_iter().for_each(|_| ()),
@@ -2108,6 +2115,23 @@ fn step_temp_coll(env: &Env, ctx: &mut ThreadCtx, kind: KindTag, members: &[Memb
 			KindTag::Owned => {}
 		}
 	});
+	// C07 at any moment of a history (members may be poisoned, killed, held):
+	// accepted iff the reference model sees no lock twice
+	if verdict.get() != 0 && kind != KindTag::Owned && !env.exec.is_abort() {
+		let mut trial = env.sem.spec.clone();
+		trial.colls.push(CollSpec { kind, ctor: Ctor::TryNew, cont: Cont::Vec, content: Content::ByRef(members.to_vec()), pois: false });
+		if Sem::valid(&trial).is_ok() {
+			let dup = Sem::new(&trial).has_duplicate(trial.colls.len() - 1);
+			if dup {
+				env.label("temp_ctor_dup");
+			}
+			match (verdict.get(), dup) {
+				(2, true) => env.finding("C07", tid, format!("false-negative|in-history|{kind:?}"), format!("{kind:?}::try_new accepted the member list {members:?} in the middle of a history although a lock is reachable twice")),
+				(1, false) => env.finding("C07", tid, format!("false-positive|in-history|{kind:?}"), format!("{kind:?}::try_new refused the duplicate-free member list {members:?} in the middle of a history")),
+				_ => {}
+			}
+		}
+	}
 	true
 }
 
